@@ -96,3 +96,4 @@ fn c13_float_neg() {
     std::mem::forget(rt);
 }
 }
+
